@@ -83,6 +83,7 @@ def run_property(pid, tier, seed):
             results[u] = f.result()
     obligations = {}
     lost_hint_fns = {}
+    unstable_all = []
     fn_text_changed = {}
     finding_obs = {}
     fns_under_contract = []
@@ -96,6 +97,9 @@ def run_property(pid, tier, seed):
         base = driver.load_baseline(u)
         for x in r.undecided:
             undecided.append(f"{u}: {x}")
+        for fn in sorted(set(getattr(r, "unstable", []))):
+            lines.append(f"NOTE unit={u} obligation {fn} is unstable across z3 seeds (thorough tier; brittle proof, verdict taken from the default seed)")
+            unstable_all.append(f"{u}:{fn}")
         if r.meta:
             for f in r.meta["functions"]:
                 if f["kind"] == "fn":
@@ -247,6 +251,7 @@ def run_property(pid, tier, seed):
             "known_findings_reported": known_lines,
             "finding_obligations": {k: ("holds" if e["success"] else "fails (property-level contract not met)") for k, e in finding_obs.items()},
             "undecided": undecided,
+            "unstable_across_seeds": unstable_all,
         },
         "assumptions": P.get("assumptions", []),
         "wall_s": round(wall, 2),
